@@ -255,7 +255,7 @@ theorem basis_differs_at_full_knot (d : Dim α) (x : α) (hm : d.KnotsMono) (a :
 theorem specSum_1d_unit (s : Nat) (fs : List α) (a : Nat) (ha : a < fs.length) (hs : 0 < s) :
     specSum (fun p : Int => if p = (a : Int) * s then (A.one : α) else A.zero) [(s, fs)] A.one 0
       = fs.getD a 0 := by
-  simp only [specSum, specSumRow_eq_sum, L.mul_eq, L.one_eq, L.zero_eq, one_mul, zero_add]
+  simp only [specSum, specSumRow_eq_rangeSum, L.mul_eq, L.one_eq, L.zero_eq, one_mul, zero_add]
   rw [Finset.sum_eq_single a]
   · simp
   · intro b _ hb
